@@ -2653,8 +2653,17 @@ class DiskObjectStore(PackBasedObjectStore):
             sha = hex_to_sha(cast(ObjectID, sha))
 
         midx = self.get_midx()
-        if midx is not None and sha in midx:
-            return True
+        if midx is not None:
+            result = midx.object_offset(cast(RawObjectID, sha))
+            if result is not None:
+                try:
+                    self._get_pack_by_name(result[0])
+                except KeyError:
+                    # Stale MIDX: the pack it names is gone, so the entry
+                    # proves nothing. Fall through, as get_raw does.
+                    pass
+                else:
+                    return True
 
         # Fall back to checking individual packs
         return super().contains_packed(sha)
